@@ -18,7 +18,7 @@ StepsC == {3000}
 CtsA == {0, 2}
 CtsB == {0, 2, -1}
 
-Cfg0 == [vc |-> VC, w |-> 640, h |-> 480, timescale |-> 90000, fragms |-> 100, via |-> "config", unit |-> 1, unit1 |-> TRUE, judge_config |-> FALSE,
+Cfg0 == [vc |-> VC, w |-> 640, h |-> 480, timescale |-> 90000, fragms |-> 100, via |-> "config", unit |-> 1, unit1 |-> TRUE, judge_config |-> FALSE, w32 |-> 1073741824, i32 |-> 1073741824,
          facets |-> [bytes |-> TRUE, timing |-> TRUE, tree |-> TRUE, raw |-> FALSE]]
 
 Pad(n) == [i \in 1..n |-> 16 + i]
